@@ -395,9 +395,9 @@ impl Group for C06Node {
     }
     fn budget(&self, tier: Tier) -> usize {
         if tier == Tier::Quick {
-            140
+            1500
         } else {
-            3000
+            25000
         }
     }
     fn model_line(&self, op: &str) -> Option<String> {
